@@ -17,6 +17,7 @@ def main():
     out = []
     for it in job['items']:
         g = G.make(it['seed'], **job['gen'])
+        impl._cell_cache.clear()
         ovsets = L.make_ovsets(g, random.Random(it['seed'] * 31 + 5), nov)
         sem = [sem_all[it['idx'] * (nov + 1) + j] for j in range(nov + 1)]
         ex = L.Exec(g, it['path'], ovsets, sem)
@@ -40,7 +41,9 @@ def main():
                     pass
             else:
                 ex.run(it['hist'], it.get('use_names', False),
-                       tuple(it.get('observe', ('calc', 'fcall'))))
+                       tuple(it.get('observe', ('calc', 'fcall'))), it.get('probe_j'))
+                if it.get('probe_j') is not None and it['hist']:
+                    ex.probe(len(it['hist']), it['hist'][-1], it['probe_j'])
             rec['problems'] = ex.problems
             rec['observations'] = ex.observations
         except BaseException as e:  # noqa
